@@ -15,16 +15,27 @@
      (1 fmt written pi written2 probes read probes2 read2)    the same table with permuted columns
      (2 fmt meta data probes load read_ext read_hand)         external schema; load = result ((text pos) ...)
      (3 fmt table ops probes read)                            binding calls ops on one Sheet object, then rows()
+     (4 fmt written probes read)                              heading row with a REPEATED name (known finding 1)
    fmt 0 = CSV: the physical sheet is the written table.
    fmt 1 = XLSX: the physical sheet is the written table padded to a rectangle with None
            (Spec.rect_view; the runner writes only non-empty text cells and no empty rows).
    [good] is computed from the written table and Spec/Table.v; [agree] from Model/HeaderRow.v.
    Outside the domain of the property (repeated header names; metadata rows without a text
    name or with repeated names) [good] is vacuous and [agree] covers the delivered rows only.
+   Stream 4 is the exception: there a heading row with a repeated name IS judged.  The property says
+   that each header names a column and that asking a row for a name returns the cell under that
+   header; with two columns of one name [good] therefore demands that every row is delivered (a
+   refusal of the whole sheet skips every row), with a value list of one cell per COLUMN, and that
+   a name heading several columns answers with an error or with a cell standing under EVERY column
+   of that name.  The code
+   keeps the last column of a name and drops the others (known finding 1,
+   K-duplicate-heading-last-wins): KNOWN only when the heading row has a repeated name AND the
+   observation is exactly that behaviour, spelled out here from Spec/DupHeadings.v and not taken from
+   the model ([pinned_last_wins]), AND equals the model; anything else on such a sheet is a VIOLATION.
    Answer 9 = the case itself is malformed (a runner defect, not an implementation defect). *)
 From Coq Require Import ZArith NArith List Bool Arith.
 Import ListNotations.
-Require Import SR.Base.Sx SR.Base.Res SR.Spec.Table SR.Model.HeaderRow.
+Require Import SR.Base.Sx SR.Base.Res SR.Spec.Table SR.Spec.DupHeadings SR.Model.HeaderRow.
 Open Scope Z_scope.
 
 (* ---------------------------------------------------------------- equality tests *)
@@ -397,10 +408,67 @@ Definition judge_binding (c : sx) : sx :=
       verdict None good agree br (L [sx_of_read m])
   end.
 
+(* ---------------------------------------------------------------- stream 4: a repeated heading name *)
+(* known finding 1, spelled out without the model: every row after the first is delivered; a name
+   reads the cell under the LAST column headed by it (absent marker when the row is too short for
+   that column, KeyError when no column is headed by it); the value list has one value per DISTINCT
+   name, in order of first occurrence, each read from the last column of that name *)
+Definition pinned_last_wins (phys : sheet) (probes : list key) : read :=
+  match phys with
+  | [] => Ok []
+  | h :: body =>
+      let hs := map str_of h in
+      Ok (map (fun r => mk_rowobs (map Some r)
+                                  (Ok (last_wins_values key_eqb hs r))
+                                  (map (fun k => match last_wins_value key_eqb hs k r with
+                                                 | Some v => Ok v
+                                                 | None => Err KeyError
+                                                 end) probes)) body)
+  end.
+
+(* what the property leaves room for when two columns bear one name: every row is delivered (no row
+   skipped, no refusal of the sheet: C09_rows), its value list has one cell per COLUMN, a name that
+   heads one column answers with the cell under it, and a name that heads several columns answers
+   with an error or with a cell that stands under every one of them *)
+Definition good_dup (h : row) (body : sheet) (probes : list key) (o : read) : bool :=
+  let hs := map str_of h in
+  match o with
+  | Err _ => false
+  | Ok robs =>
+      list_eqb (list_eqb value_eqb) (map o_inst robs) (map (map Some) body)
+      && forallb (fun p : rowobs * row =>
+                    let (ob, r) := p in
+                    res_eqb (list_eqb value_eqb) (o_vals ob) (Ok (cells_in_header_order (length hs) r))
+                    && (length (o_names ob) =? length probes)%nat
+                    && forallb (fun q : key * res value =>
+                                  match all_indices key_eqb (fst q) hs, snd q with
+                                  | _ :: _ :: _, Err _ => true
+                                  | cols, ans => forallb (fun i => res_eqb value_eqb ans (Ok (nth_error r i))) cols
+                                  end)
+                               (combine probes (o_names ob)))
+                 (combine robs body)
+  end.
+
+Definition judge_dup (c : sx) : sx :=
+  let phys := view (as_Z (nth_sx 1 c)) (dec_sheet (nth_sx 2 c)) in
+  let probes := dec_keys (nth_sx 3 c) in
+  let o := dec_read (nth_sx 4 c) in
+  let m := model_read (row_iter HeadingRow None phys) probes in
+  match phys with
+  | h :: body =>
+      if repeated key_eqb (map str_of h) then
+        verdict (if read_eqb o (pinned_last_wins phys probes) then Some 1 else None)
+                (good_dup h body probes o) (read_eqb o m) (100 + shape (length h) body)
+                (L [sx_of_read m])
+      else verdict None (good_header phys probes o) (read_eqb o m) (branch_header phys) (L [sx_of_read m])
+  | [] => verdict None (good_header phys probes o) (read_eqb o m) 0 (L [sx_of_read m])
+  end.
+
 Definition judge (c : sx) : sx :=
   let stream := as_Z (nth_sx 0 c) in
   if stream =? 0 then judge_header c
   else if stream =? 1 then judge_perm c
   else if stream =? 2 then judge_external c
   else if stream =? 3 then judge_binding c
+  else if stream =? 4 then judge_dup c
   else L [A 9; A (-1); L []].
